@@ -23,6 +23,8 @@ Adv == l' = l + 1 /\ UNCHANGED <<x, kind, nargs>>
 ExpectedArgs == IF kind \in {3, 4} THEN 0 ELSE IF nargs = 0 THEN 0 ELSE IF nargs = 1 THEN 10 ELSE 11
 TNext ==
   \/ Is("StartCall") /\ ~called /\ called' = TRUE /\ UNCHANGED <<invoked, ended, destroyed, finseen>> /\ Adv
+  \* start() threw (the thread could not be created): nothing was invoked; the next StartCall begins afresh
+  \/ Is("StartThrew") /\ called /\ invoked = 0 /\ called' = FALSE /\ UNCHANGED <<invoked, ended, destroyed, finseen>> /\ Adv
   \/ Is("StartRet") /\ called /\ UNCHANGED <<called, invoked, ended, destroyed, finseen>> /\ Adv
   \/ Is("Invoke") /\ kind # 3 /\ called /\ invoked = 0 /\ E.a = 1
        /\ invoked' = 1 /\ UNCHANGED <<called, ended, destroyed, finseen>> /\ Adv
